@@ -2,6 +2,7 @@ package vc
 
 import (
 	"go/types"
+	"sort"
 	"strings"
 
 	"govc/smt"
@@ -130,6 +131,11 @@ func (sf *specFn) structural() bool {
 			a := args[i]
 			depth := 0
 			for {
+				if ix, isIx := a.(*spec.Index); isIx {
+					// an element of a slice held by the parameter (recursion through []T fields)
+					a = ix.X
+					continue
+				}
 				s, isSel := a.(*spec.Selector)
 				if !isSel {
 					break
@@ -179,15 +185,53 @@ func (e *Eval) applyUF(sf *specFn, defEval *Eval, sc *scope) SV {
 	}
 	rs := e.P.T.SortOf(rt)
 	name := "sf$" + sf.F.Name + "$" + strings.Join(names, "$")
-	e.P.D.AddFunc(name, rs, sorts...)
-	app := smt.App(name, rs, args...)
-	res := e.FromVal(app, rt)
 	if sf.F.Uninterpreted {
-		return res
+		e.P.D.AddFunc(name, rs, sorts...)
+		return e.FromVal(smt.App(name, rs, args...), rt)
 	}
 	if !sf.F.Opaque && !sf.structural() {
 		e.fail("%s: cannot see that the recursion is structural (some parameter must be replaced by one of its own fields in every recursive application)", sf.F.Name)
 	}
+	// The heaps the definition reads (a recursion through slices reads backing arrays) become
+	// further arguments of the function symbol: the value of f(args) in a state is a function of
+	// the arguments and of those heaps, so facts about f survive exactly the writes that leave
+	// them alone. They are found once per instantiation by evaluating the body over a scratch heap.
+	if sf.discovering[name] {
+		dn := name + "$disc"
+		e.P.D.AddFunc(dn, rs, sorts...)
+		return e.FromVal(smt.App(dn, rs, args...), rt)
+	}
+	keys, known := sf.heapKeys[name]
+	if !known {
+		if sf.discovering == nil {
+			sf.discovering, sf.heapKeys = map[string]bool{}, map[string][]leaf{}
+		}
+		sf.discovering[name] = true
+		scratch := map[string]*smt.Term{}
+		dEval := *defEval
+		dEval.Heap, dEval.Old, dEval.Facts, dEval.ufSeen = scratch, scratch, nil, nil
+		dEval.unfold = maxUnfold
+		dEval.Eval(sf.F.Body)
+		delete(sf.discovering, name)
+		var ks []string
+		for k := range scratch {
+			if k != "$gen" {
+				ks = append(ks, k)
+			}
+		}
+		sort.Strings(ks)
+		for _, k := range ks {
+			keys = append(keys, leaf{name: k, sort: scratch[k].Sort})
+		}
+		sf.heapKeys[name] = keys
+	}
+	for _, k := range keys {
+		args = append(args, e.Env.heapVar(e.Heap, k.name, k.sort))
+		sorts = append(sorts, k.sort)
+	}
+	e.P.D.AddFunc(name, rs, sorts...)
+	app := smt.App(name, rs, args...)
+	res := e.FromVal(app, rt)
 	if !closed || e.Facts == nil || e.unfold >= maxUnfold {
 		return res
 	}
@@ -199,16 +243,9 @@ func (e *Eval) applyUF(sf *specFn, defEval *Eval, sc *scope) SV {
 	}
 	e.ufSeen[app] = e.unfold
 	defEval.ufSeen = e.ufSeen
-	scratch := map[string]*smt.Term{}
-	defEval.Heap, defEval.Old = scratch, nil
 	defEval.unfold = e.unfold + 1
 	body := defEval.Eval(sf.F.Body)
 	body = defEval.coerce(body, rt)
-	for k := range scratch {
-		if k != "$gen" {
-			e.fail("%s: a recursive specification function must not read the heap (%s)", sf.F.Name, k)
-		}
-	}
 	e.Facts(smt.Eq(app, e.term(body)))
 	return res
 }
